@@ -98,6 +98,12 @@ def scenarios(run):
             st = [S("sub", c=1, buf=4), S("pub", id=1, kind=k1, n=nvals(k1), only=0), S("sub", c=2, buf=4), S("pub", id=2, kind=k2, n=nvals(k2), only=0),
                   S("waitret", id=1), S("waitret", id=2), S("end")]
             out.append(dict(timeout=False, steps=st, pat="P7"))
+    # B uncontrolled bursts: windows of a few instructions (simultaneous Unsubs of different channels; publishers racing for the last
+    #   buffer slot of a stalled subscriber under a timeout), so many rounds, summarised per batch
+    for n, dup in ((4, 1), (2, 1), (3, 2), (8, 1)):
+        out.append(dict(burst="unsub", n=n, dup=dup, rounds=(20000 if q else 300000), pat="B", steps=[]))
+    for pubs, buf, wait in ((8, 1, False), (8, 1, True), (4, 2, False), (6, 3, True)):
+        out.append(dict(burst="slot", pubs=pubs, buf=buf, wait=wait, rounds=(1500 if q else 20000), pat="B", steps=[]))
     # seeded random mixes (buffered subscribers so that nothing has to wait for the script)
     for i in range(20 if q else 300):
         tmo = run.rng.random() < 0.3
@@ -196,6 +202,8 @@ def check(run):
         if r["segment"] and r["segment"][-1].get("ev") == "crash":
             r["fact"] = True
             r["clause"] = "NoPanic"
+        elif r.get("plan") and r["plan"].get("pat") == "B":
+            r["fact"] = True       # uncontrolled rounds: what was observed is the evidence, a re-run need not hit the same window
     pats = {}
     for sc in scs:
         pats[sc["pat"]] = pats.get(sc["pat"], 0) + 1
